@@ -1,0 +1,149 @@
+//go:build verif
+
+package reconciler
+
+import (
+	"context"
+	"reflect"
+	"sync"
+	"time"
+
+	"sigs.k8s.io/controller-runtime/pkg/client"
+	"sigs.k8s.io/controller-runtime/pkg/event"
+
+	"github.com/jcmoraisjr/haproxy-ingress/pkg/controller/config"
+	"github.com/jcmoraisjr/haproxy-ingress/pkg/controller/services"
+	"github.com/jcmoraisjr/haproxy-ingress/pkg/converters/types"
+)
+
+// VerifWatchers drives the real watchers the way controller-runtime's event handler
+// does: for an event on an object, every handler registered for the object's type is
+// offered the event, its predicates are evaluated as a conjunction and, when all of
+// them accept, the handler's Create/Update/Delete/Generic is called with a queue.
+type VerifWatchers struct {
+	w        *watchers
+	handlers []*hdlr
+	q        *verifQueue
+}
+
+// VerifNewWatchers creates the real watchers.
+func VerifNewWatchers(ctx context.Context, cfg *config.Config, val services.IsValidResource) *VerifWatchers {
+	w := createWatchers(ctx, cfg, val)
+	return &VerifWatchers{w: w, handlers: w.getHandlers(), q: &verifQueue{}}
+}
+
+func (v *VerifWatchers) match(obj client.Object) []*hdlr {
+	var out []*hdlr
+	for _, h := range v.handlers {
+		if reflect.TypeOf(h.typ) == reflect.TypeOf(obj) {
+			out = append(out, h)
+		}
+	}
+	return out
+}
+
+// FireCreate delivers a create event; it returns how many handlers accepted it.
+func (v *VerifWatchers) FireCreate(obj client.Object) (accepted int) {
+	for _, h := range v.match(obj) {
+		ok := true
+		for _, p := range h.pr {
+			if !p.Create(event.CreateEvent{Object: obj}) {
+				ok = false
+				break
+			}
+		}
+		if ok {
+			h.Create(context.Background(), event.TypedCreateEvent[client.Object]{Object: obj}, v.q)
+			accepted++
+		}
+	}
+	return accepted
+}
+
+// FireUpdate delivers an update event.
+func (v *VerifWatchers) FireUpdate(old, cur client.Object) (accepted int) {
+	for _, h := range v.match(cur) {
+		ok := true
+		for _, p := range h.pr {
+			if !p.Update(event.UpdateEvent{ObjectOld: old, ObjectNew: cur}) {
+				ok = false
+				break
+			}
+		}
+		if ok {
+			h.Update(context.Background(), event.TypedUpdateEvent[client.Object]{ObjectOld: old, ObjectNew: cur}, v.q)
+			accepted++
+		}
+	}
+	return accepted
+}
+
+// FireDelete delivers a delete event.
+func (v *VerifWatchers) FireDelete(obj client.Object) (accepted int) {
+	for _, h := range v.match(obj) {
+		ok := true
+		for _, p := range h.pr {
+			if !p.Delete(event.DeleteEvent{Object: obj}) {
+				ok = false
+				break
+			}
+		}
+		if ok {
+			h.Delete(context.Background(), event.TypedDeleteEvent[client.Object]{Object: obj}, v.q)
+			accepted++
+		}
+	}
+	return accepted
+}
+
+// FireGeneric delivers a generic event.
+func (v *VerifWatchers) FireGeneric(obj client.Object) (accepted int) {
+	for _, h := range v.match(obj) {
+		ok := true
+		for _, p := range h.pr {
+			if !p.Generic(event.GenericEvent{Object: obj}) {
+				ok = false
+				break
+			}
+		}
+		if ok {
+			h.Generic(context.Background(), event.TypedGenericEvent[client.Object]{Object: obj}, v.q)
+			accepted++
+		}
+	}
+	return accepted
+}
+
+// Swap is getChangedObjects: the batch handed to a reconciliation.
+func (v *VerifWatchers) Swap() *types.ChangedObjects { return v.w.getChangedObjects() }
+
+// Notifications returns, and clears, the queue items added so far (true = full sync).
+func (v *VerifWatchers) Notifications() []bool { return v.q.take() }
+
+type verifQueue struct {
+	mu    sync.Mutex
+	items []bool
+}
+
+func (q *verifQueue) take() []bool {
+	q.mu.Lock()
+	defer q.mu.Unlock()
+	i := q.items
+	q.items = nil
+	return i
+}
+func (q *verifQueue) AddRateLimited(item rparam) {
+	q.mu.Lock()
+	defer q.mu.Unlock()
+	q.items = append(q.items, item.fullsync)
+}
+func (q *verifQueue) Add(item rparam)                       { q.AddRateLimited(item) }
+func (q *verifQueue) AddAfter(item rparam, _ time.Duration) { q.AddRateLimited(item) }
+func (q *verifQueue) Forget(rparam)                         {}
+func (q *verifQueue) NumRequeues(rparam) int                { return 0 }
+func (q *verifQueue) Len() int                              { return 0 }
+func (q *verifQueue) Get() (item rparam, shutdown bool)     { return rparam{}, true }
+func (q *verifQueue) Done(rparam)                           {}
+func (q *verifQueue) ShutDown()                             {}
+func (q *verifQueue) ShutDownWithDrain()                    {}
+func (q *verifQueue) ShuttingDown() bool                    { return false }
